@@ -147,7 +147,7 @@ Proof.
       match goal with |- fst (nth ix ?range (0, 0)) < nc => destruct (Nat.lt_ge_cases ix (length range)) as [Hl|Hl];
         [apply Hcs; assert (Hin : In (nth ix range (0, 0)) range) by (apply nth_In; exact Hl); apply firstn_In in Hin; eapply skipn_In; eauto
         |rewrite nth_overflow by exact Hl; simpl; exact Hpos] end.
-    + pose proof (selections_nonempty _ _ idx Hk Hidx) as Hne. destruct idx; [congruence|discriminate].
+    + rewrite selections_fast_eq in Hidx. pose proof (selections_nonempty _ _ idx Hk Hidx) as Hne. destruct idx; [congruence|discriminate].
   - exfalso. eapply create_set_false_some; exact Eal.
   - exfalso. eapply create_set_no_site; [exact Hrs|exact Hcl|exact Eal].
   - discriminate.
